@@ -2,6 +2,13 @@
 from vlib import Case
 
 ID = "C02"
+CLAIMED = False
+NOT_CLAIMED_REASON = "not claimed yet: model, reference parser, executable statement (chk_C02), correspondence and monitor exist and run; the round-trip proof (Proofs/WireOutProofs.v) is in progress"
+LEVEL_TEXT = ("Coq theorem: for every well-formed message whose question section fits one packet, the packets produced "
+              "by the encoder model satisfy chk_C02 (size, header counts, reference parser reads back exactly a "
+              "sub-sequence of what was added, TC on all but the last); the crate decoder model agrees with the reference "
+              "parser; model tied to the Rust encoder byte-for-byte (packets and compression tables) on every run")
+TECHNIQUE = "machine-checked proof in Coq (compression-table invariant, append stability of the reference reader) + model/implementation correspondence"
 THEOREM_FILE = "Props/C02.v"
 LEVELS = "K1-encode (DnsOutgoing built from plain records, to_packets bytes + compression tables + crate decoder output compared)"
 RULE = ("messages of questions and PTR/SRV/TXT/A/AAAA records in every section; names from label pools with "
